@@ -9,8 +9,13 @@
   never exhausted: the only fault the model can ever raise is `durOverflow`, the checked
   `Duration` addition of the blocking accounting. `C01_fuel`: the transition recursion needs at
   most 2 x (unset counter-zero flags) + 2 <= 6 units of the 8 provided, whatever the machine.
+  `C01_total`: that fault is excluded too — so the call returns normally — whenever the start time
+  and all call times lie in a window of width `B` ns (standing still, running backwards and
+  jumping inside the window allowed) and `(calls + 1) * B` fits a `Duration` (2^64 s): e.g. a
+  million calls within a century. Proof: the potential `blocked time + ongoing blocking` grows by
+  at most `B` per call and is constant within a call (`Proofs/DurBound.lean`).
   `C01_dur_overflow_reachable` shows that the remaining fault is real (the guard of C01_total is
-  not slack): a two-call history with a clock jump of 2^65 seconds reaches it; the same history
+  not slack by more than the factor between 4 and `calls + 1`): a two-call history with a clock jump of 2^65 seconds reaches it; the same history
   panics the implementation ("overflow when adding durations") and is recorded as a known finding.
   `C01_work`: the number of transition invocations of one call (counted on the ghost copy of the
   hook log, whose agreement with the implementation's log is part of the correspondence) is at
@@ -19,6 +24,7 @@
 -/
 import MbVerif.Proofs.ValidateOK
 import MbVerif.Proofs.WorkBound
+import MbVerif.Proofs.DurBound
 
 namespace Mb.C01
 open Mb
@@ -82,6 +88,29 @@ def unitOracle : Oracle Unit := { u := fun _ => (0, ()), d := fun _ _ => (0, ())
 
 /-- 2^62 seconds in nanoseconds -/
 def bigT : Int := 4611686018427387904000000000
+
+/-- **Totality under a clock-span guard**: validated machines, any fractions, any oracle, any
+    history whose clock values (start time included) lie in a window `[lo, lo + B]` — not
+    necessarily monotone — with `(calls + 1) * B ≤ Duration::MAX`: no fault of any kind. -/
+theorem C01_total (ms : List Machine) (hms : MachinesValid ms) (fp fb : F64) (t0 : Int) (rng : σ)
+    (h : List Call) (lo : Int) (B : Nat) (ht0 : lo ≤ t0 ∧ t0 ≤ lo + B)
+    (ht : ∀ cl ∈ h, lo ≤ cl.2 ∧ cl.2 ≤ lo + B) (hg : (h.length + 1) * B ≤ durMax) :
+    (runCalls ρ (Fw.init ρ ms fp fb t0 rng) h).fault = none := by
+  rcases C01_no_crash ρ ms hms fp fb t0 rng h with h1 | h1
+  · exact h1
+  · exact absurd h1 (noDur_run ρ ms fp fb t0 rng h ht0 ht hg)
+
+/-- the same for every intermediate state of the history (every call returned normally) -/
+theorem C01_total_prefix (ms : List Machine) (hms : MachinesValid ms) (fp fb : F64) (t0 : Int) (rng : σ)
+    (h h' : List Call) (lo : Int) (B : Nat) (ht0 : lo ≤ t0 ∧ t0 ≤ lo + B)
+    (ht : ∀ cl ∈ h ++ h', lo ≤ cl.2 ∧ cl.2 ≤ lo + B) (hg : ((h ++ h').length + 1) * B ≤ durMax) :
+    (runCalls ρ (Fw.init ρ ms fp fb t0 rng) h).fault = none := by
+  refine C01_total ρ ms hms fp fb t0 rng h lo B ht0 (fun cl hcl => ht cl (by simp [hcl])) ?_
+  have : (h.length + 1) * B ≤ ((h ++ h').length + 1) * B := Nat.mul_le_mul_right B (by simp)
+  omega
+
+/-- Non-vacuity of the guard: a million calls spread over a century (in ns) satisfy it. -/
+example : (1000000 + 1) * (100 * 365 * 86400 * 1000000000) ≤ durMax := by decide
 
 /-- The remaining fault is reachable: four blocking periods of 2^62 s each (the clock jumping
     back in between) overflow the `Duration` that accumulates blocked time. No machine is needed. -/
